@@ -9,13 +9,13 @@
 (* uncrustify_file() can produce, and changes only what its class may change.                 *)
 EXTENDS Pipeline, Json, IOUtils
 TraceLog == ndJsonDeserialize(IOEnv.TRACE)
-VARIABLES l, cur, modOn, cmtOn, firstTouch
-tvars == <<l, cur, modOn, cmtOn, firstTouch>>
+VARIABLES l, cur, modOn, cmtOn, firstTouch, npass
+tvars == <<l, cur, modOn, cmtOn, firstTouch, npass>>
 Ev == TraceLog[l]
 ToSet(sq) == {sq[j] : j \in 1..Len(sq)}
 Report(rec) == PrintT("@@" \o ToJson(rec))
 TRun == /\ Ev.e = "Run"
-        /\ cur' = "start" /\ modOn' = Ev.modOn /\ cmtOn' = Ev.cmtOn /\ firstTouch' = ""
+        /\ cur' = "start" /\ modOn' = Ev.modOn /\ cmtOn' = Ev.cmtOn /\ firstTouch' = "" /\ npass' = 0
 TPass == /\ Ev.e = "Pass"
          /\ LET p == Ev.name
                 ch == ToSet(Ev.changed)
@@ -30,6 +30,7 @@ TPass == /\ Ev.e = "Pass"
                                        (IF known /\ ~sched THEN {"Schedule"} ELSE {}) \cup
                                        (IF known /\ ~contract THEN {"PassContract"} ELSE {}),
                              pass |-> p, changed |-> ch, stage |-> cur])
+         /\ npass' = npass + 1
          /\ UNCHANGED <<modOn, cmtOn>>
 (* 'why' names the one documented rewrite that is not a change of layout: a blank is        *)
 (* inserted after the '*' leader of a continuation line ('*text' -> '* text').               *)
@@ -38,11 +39,12 @@ TOut == /\ Ev.e = "Out"
                       (IF ~cmtOn /\ Ev.cin # Ev.cout THEN {"CommentsPreserved"} ELSE {}) \cup
                       (IF ~cmtOn /\ ~modOn /\ Ev.lin # Ev.lout THEN {"LiteralsPreserved"} ELSE {})
                why == IF "cinS" \in DOMAIN Ev /\ Ev.cin # Ev.cout /\ Ev.cinS = Ev.coutS THEN "StarLeaderSpace" ELSE ""
-           IN bad # {} => Report([l |-> l, id |-> Ev.id, bad |-> bad, drift |-> {}, pass |-> firstTouch,
+               silent == IF npass = 0 THEN {"HookSilent"} ELSE {}      \* an execution that produced output without a single pass event
+           IN (bad # {} \/ silent # {}) => Report([l |-> l, id |-> Ev.id, bad |-> bad, drift |-> silent, pass |-> firstTouch,
                                   changed |-> {}, stage |-> cur, why |-> why])
-        /\ UNCHANGED <<cur, modOn, cmtOn, firstTouch>>
+        /\ UNCHANGED <<cur, modOn, cmtOn, firstTouch, npass>>
 TNext == l <= Len(TraceLog) /\ l' = l + 1 /\ (TRun \/ TPass \/ TOut) /\ UNCHANGED vars
-TInit == chunks = <<>> /\ stage = "trace" /\ edits = 0 /\ lexIn = <<>> /\ l = 1 /\ cur = "start" /\ modOn = FALSE /\ cmtOn = FALSE /\ firstTouch = ""
+TInit == chunks = <<>> /\ stage = "trace" /\ edits = 0 /\ lexIn = <<>> /\ l = 1 /\ npass = 0 /\ cur = "start" /\ modOn = FALSE /\ cmtOn = FALSE /\ firstTouch = ""
 TSpec == TInit /\ [][TNext]_<<tvars, vars>>
 TraceAccepted == TLCGet("stats").diameter - 1 = Len(TraceLog)
 =============================================================================
